@@ -23,7 +23,8 @@ META = {
 REAL_REPO = "/repo"
 REAL_BUILD = "/repo/_build"
 HARNESS = os.path.join(V.VERIF, "harness", "C20")
-MUTATING = {"set", "iadd", "isub", "iaddl", "imuls", "idivs", "iadds", "isubs", "assign", "setslice", "isubl", "assignl", "setnp"}
+MUTATING = {"set", "iadd", "isub", "iaddl", "imuls", "idivs", "iadds", "isubs", "assign", "setslice", "isubl", "assignl", "setnp",
+            "setslicefrom", "arriadd", "arrisub", "arrimuls", "arriadds"}
 BAD_KINDS = ("npint", "npf32", "np2d", "bytearray", "arrayi")
 
 
@@ -135,8 +136,10 @@ class Oracle:
     """The property read literally, with Python's own list semantics for indices and slices: a vector is the list of its
     entries; a view addresses the same storage; construction = first n, zero filled; operators act entry-wise."""
 
-    def __init__(self, npv=False, dyn=False):
+    def __init__(self, npv=False, dyn=False, f32=False):
+        self.f32 = f32           # `f32` scripts: FieldVector<float,n>; float64 buffers are rejected, float32 ones accepted
         self.R = []
+        self.dropped = set()
         self.dyn = dyn           # `dyn`/`dynj` scripts: DynamicVector (size = number of entries given; operands must have equal size)
         self.npv = npv           # `npv` scripts: the registers are NumPy arrays accessed through a C++ NumPyVector
 
@@ -159,13 +162,26 @@ class Oracle:
         return (list(vals) + [Fraction(0)] * n)[:n]
 
     def dump(self):
-        return "{" + "|".join("%s[%s]" % (o.kind, ",".join(fr(v) for v in o.vals())) for o in self.R) + "}"
+        return "{" + "|".join("x" if i in self.dropped else "%s[%s]" % (o.kind, ",".join(fr(v) for v in o.vals())) for i, o in enumerate(self.R)) + "}"
+
+    @staticmethod
+    def broadcast(n, vals):
+        """NumPy: operand of equal length, or one entry repeated; else ValueError"""
+        if len(vals) == n:
+            return list(vals)
+        if len(vals) == 1:
+            return list(vals) * n
+        raise Exc("ValueError")
 
     def step(self, t, hint=""):
         op = t[0]
         if op == "bad2d":
             return "!RuntimeError"            # NumPyVector around a two-dimensional array: Dune exception
-        if op == "new" and t[2] in BAD_KINDS:
+        if op == "crossbad":
+            return "!ValueError"
+        if op == "new" and self.f32 and t[2] in ("np", "nprev", "npstride", "array", "npcol", "memview", "npint"):
+            return "!ValueError"
+        if op == "new" and t[2] in BAD_KINDS and not (self.f32 and t[2] == "npf32"):
             return "!ValueError"              # documented rejection: "Incompatible buffer format." / not one-dimensional
         if op == "new":
             if self.dyn:
@@ -173,6 +189,29 @@ class Oracle:
             return self.fresh("a" if self.npv else "v", self.conv(int(t[1]), qlist(t[3])))
         if op == "newfrom":
             return self.fresh("v", self.conv(int(t[1]), self.R[int(t[2])].vals()))
+        if op == "newv":
+            return self.fresh("v", self.conv(int(t[1]), qlist(t[3])))
+        if op == "drop":
+            self.dropped.add(int(t[1]))
+            return "ok"
+        if op == "setslicefrom":            # the right-hand side is read before anything is written (storage may overlap)
+            t = ["setslice", t[1], t[2], t[3], t[4], ",".join(fr(v) for v in self.R[int(t[5])].vals()) or "-"]
+            op = "setslice"
+        if op in ("arriadd", "arrisub", "arradd"):
+            x, y = self.R[int(t[1])], self.R[int(t[2])].vals()
+            xv = x.vals()
+            if op == "arradd" and len(xv) == 1 and len(y) not in (0, 1):
+                xv = xv * len(y)               # out of place NumPy broadcasts both ways
+            elif op == "arradd" and len(xv) == 1 and len(y) == 0:
+                xv = []
+            y = self.broadcast(len(xv), y)
+            res = [a + b for a, b in zip(xv, y)] if op != "arrisub" else [a - b for a, b in zip(xv, y)]
+            if op == "arradd":
+                return self.fresh("a", res)
+            x.put(res); return "ok"
+        if op in ("arrimuls", "arriadds"):
+            x = self.R[int(t[1])]; sc = Fraction(t[2])
+            x.put([a * sc for a in x.vals()] if op == "arrimuls" else [a + sc for a in x.vals()]); return "ok"
         x = self.R[int(t[1])]
         n = len(x)
         xv = x.vals()
@@ -183,7 +222,7 @@ class Oracle:
             return self.fresh("v", self.conv(n, qlist(t[2])))
         if op == "float":
             return "s:" + fr(xv[0])
-        if op == "bufinfo":
+        if op in ("bufinfo", "bufinfo32"):
             return "i:%d" % n
         if op == "setslice":
             o = lambda s: None if s == "_" else int(s)
@@ -299,7 +338,7 @@ class Oracle:
 
 
 def split_case(case):
-    return [s.split() for s in case.split(";") if s.strip() and s.strip() not in ("npv", "dyn", "dynj")]
+    return [s.split() for s in case.split(";") if s.strip() and s.strip() not in ("npv", "dyn", "dynj", "f32")]
 
 
 def is_dyn(case):
@@ -308,7 +347,7 @@ def is_dyn(case):
 
 def prefix_of(case):
     h = case.split(";", 1)[0].strip()
-    return h + " ; " if h in ("npv", "dyn", "dynj") else ""
+    return h + " ; " if h in ("npv", "dyn", "dynj", "f32") else ""
 
 
 def is_npv(case):
@@ -340,6 +379,12 @@ def tv_oracle(case):
     out.append("neg:!TypeError")                       # size_t index: no negative indices for tuple vectors
     out += ["bad%d:!RuntimeError" % i for i in range(n)]   # a value of another type is rejected (cast_error)
     out.append("assign=" + ",".join(show(k, v) for k, v in elems))
+    out.append("self=" + ",".join(show(k, v) for k, v in elems))
+    ty = lambda e: ("v", len(e[1])) if e[0] == "v" else e[0]
+    pair = next(((a, b) for a in range(n) for b in range(a + 1, n) if ty(elems[a]) == ty(elems[b])), None)
+    out.append("xfer=-" if pair is None else "xfer=" + ",".join(show(*(elems[pair[1]] if i == pair[0] else elems[i])) for i in range(n)))
+    k0 = next((i for i, (k, v) in enumerate(elems) if k == "v"), 0)
+    out.append("keep=" + show(*elems[k0]))
     j = next((i for i, (k, v) in enumerate(elems) if k == "v"), None)
     out.append("alias=-" if j is None else "alias=" + show("v", [Fraction(99)] + elems[j][1][1:]))
     return " | ".join(out)
@@ -349,7 +394,7 @@ def oracle_line(case, impl_line):
     """Run the oracle on the script, taking from the impl's line only the hint whether an n=1 integer product came back as a vector."""
     ops = split_case(case)
     itoks = impl_line.split(" # ")[0].split(" ; ") if impl_line else []
-    O, toks = Oracle(is_npv(case), is_dyn(case)), []
+    O, toks = Oracle(is_npv(case), is_dyn(case), case.startswith("f32")), []
     for j, t in enumerate(ops):
         hint = itoks[j] if j < len(itoks) else ""
         try:
@@ -408,7 +453,7 @@ DIVS = [Fraction(v) for v in (2, -1, 4, 1, -2)] + [Fraction(1, 2), Fraction(-1, 
 KINDS = ["list", "listf", "tuple", "args", "np", "nprev", "npstride", "array", "npcol", "memview"]
 
 
-TV_CASES = ["tv ; f 17 ; v 2,2 ; f 3 ; v 1,2,3", "tv ; v 1,2,3 ; v 1,2", "tv ; f 1/2 ; i 5 ; v 7"]
+TV_CASES = ["tv ; f 17 ; v 2,2 ; f 3 ; v 1,2,3", "tv ; v 1,2,3 ; v 1,2", "tv ; f 1/2 ; i 5 ; v 7", "tv ; v 4,5", "tv ; v 1,2 ; v 3,4 ; v 5,6"]
 
 
 # NOT judged (no violation, no known finding): DynamicVector arithmetic with operands of different size is a C++ precondition
@@ -515,6 +560,7 @@ def gen(ctx, sizes):
                          "norm1 0 ; norm22 0 ; norminf 0 ; assign 0 1 ; set 0 0 7 ; get 1 0" % (pre, n, ql(vals), n, ql(w)))
             cases.append("%s ; new %d list %s ; addl 0 %s ; raddl 0 %s ; subl 0 %s ; rsubl 0 %s ; dotl 0 %s ; eql 0 %s ; iaddl 0 %s" % ((pre, n, ql(vals)) + (ql(w),) * 7))
         cases.append("%s ; new 0 list - ; len 0 ; iter 0 ; get 0 0 ; get 0 -1 ; norm1 0" % pre)
+        cases.append("%s ; new 3 list 1,2,3 ; iadd 0 0 ; isub 0 0 ; iadd 0 0 ; assign 0 0 ; dot 0 0 ; eq 0 0 ; ne 0 0 ; add 0 0 ; pos 0 ; iadd 0 2 ; imuls 2 2 ; iter 0" % pre)
         cases.append("%s ; new 0 noarg - ; len 0 ; iter 0 ; get 0 0 ; repr 0 ; new 2 list 1,2 ; assign 0 1 ; iter 0" % pre)
         cases.append("%s ; new 3 list 1,2,3 ; new 2 list 5,6 ; assign 0 1 ; len 0 ; set 0 0 9 ; get 1 0" % pre)
     # (7) TupleVector (every type tuple is a JIT module: one in quick, three in thorough): model c20_tv_*, theorem C20_tuple
@@ -554,6 +600,38 @@ def gen(ctx, sizes):
             y = rvals(m)
             cases.append("new %d list %s ; newfrom %d 0 ; slice 0 _ _ -1 ; newfrom %d 2 ; slice 0 _ _ 2 ; newfrom %d 4 ; slice 2 1 _ 2 ; newfrom %d 6 ; "
                          "set 0 0 77 ; iter 1 ; iter 2 ; iter 6 ; view 0 ; newfrom %d 8 ; slice 4 _ _ -1 ; newfrom %d 10 ; iter 10" % (m, ql(y), n, n, n, n, n, n))
+    # (11) cross-cutting audit (mutants/C20/API_COVERAGE.md, "Dimension audit"): aliasing operands, views as receivers,
+    #      slice assignment from overlapping storage, dropped owners, NumPyVector over a FieldVector's buffer
+    for n in sizes:
+        x = rvals(n)
+        pre = "new %d list %s ; " % (n, ql(x))
+        cases.append(pre + "iadd 0 0 ; isub 0 0 ; iadd 0 0 ; assign 0 0 ; dot 0 0 ; eq 0 0 ; ne 0 0 ; add 0 0 ; sub 0 0 ; view 0 ; iadd 0 3 ; assign 0 3 ; eq 0 3 ; "
+                           "slice 0 _ _ -1 ; iadd 0 4 ; isub 0 4 ; assign 0 4 ; dot 0 4 ; pos 0 ; iadd 0 5 ; isub 5 0 ; imuls 5 2 ; get 0 -1")
+        cases.append(pre + "slice 0 1 _ _ ; setslicefrom 0 _ -1 _ 1 ; slice 0 _ _ -1 ; setslicefrom 0 _ _ _ 2 ; setslicefrom 0 _ _ _ 0 ; setslicefrom 2 _ _ _ 0 ; "
+                           "setslicefrom 0 _ _ 2 2 ; view 0 ; setslicefrom 3 _ _ -1 3 ; copyctor 0 ; setslicefrom 4 _ _ _ 2 ; get 0 0")
+        for m in sorted({1, n, n + 1}):
+            cases.append(pre + "view 0 ; new %d tuple %s ; arriadd 1 2 ; arrisub 1 0 ; arriadd 1 2 ; slice 0 _ _ -1 ; arriadd 1 3 ; arrisub 3 1 ; arrimuls 1 2 ; arriadds 3 1/2 ; "
+                               "arradd 1 0 ; arradd 3 2 ; arriadd 3 3 ; view 2 ; arriadd 1 %d ; get 0 0 ; iter 2" % (m, ql(rvals(m)), 6 if (m in (1, n) or n == 1) else 5))
+        cases.append(pre + "view 0 ; slice 0 _ _ 2 ; slice 0 _ _ -1 ; drop 0 ; set 1 0 5 ; get 2 0 ; iter 3 ; arriadd 1 3 ; copyctor 1 ; newfrom %d 3 ; drop 1 ; iter 2 ; set 3 -1 8 ; iter 2" % n)
+        cases.append("npv ; newv %d list %s ; view 0 ; len 1 ; " % (n, ql(x)) + " ; ".join("get 1 %d" % i for i in range(n)) +
+                     " ; set 1 %d 50 ; imuls 1 2 ; norm22 1 ; iadds 1 1 ; slice 0 _ _ -1 ; set 2 0 9 ; getc 2 %d ; idivs 2 2 ; norm1 1" % (n - 1, n - 1))
+    # (12) another instance of the binding template: Dune::FieldVector<float,n> (format 'f'); float32 buffers accepted, float64
+    #      ones rejected, conversion between the float and the double class rejected; dyadic values of few bits only
+    for n in ([3] if ctx.quick else [1, 2, 3]):
+        v = [Fraction(i + 1) for i in range(n)]; w = [Fraction(3 * i - 2, 2) for i in range(n)]
+        for kind in ("list", "listf", "tuple", "args", "npf32", "nprev32", "noarg", "np", "nprev", "array", "npint"):
+            for k in sorted({0, n - 1, n, n + 1}):
+                if kind == "noarg" and k: continue
+                tail = "" if kind in ("np", "nprev", "array", "npint") else " ; iter 0 ; str 0 ; repr 0 ; len 0"
+                cases.append("f32 ; new %d %s %s%s" % (n, kind, ql(v[:k] + [Fraction(7)] * max(0, k - n)), tail))
+        cases.append("f32 ; new %d list %s ; " % (n, ql(v)) + " ; ".join("get 0 %d" % i for i in range(-n - 1, n + 1)) + " ; " + " ; ".join("set 0 %d 9" % i for i in (-n - 1, -1, n)))
+        cases.append("f32 ; new %d list %s ; new %d npf32 %s ; view 0 ; bufinfo32 0 ; set 2 0 50 ; slice 0 _ _ -1 ; set 3 0 60 ; add 0 1 ; sub 0 3 ; dot 0 1 ; eq 0 2 ; iadd 0 1 ; "
+                     "isub 0 3 ; muls 0 2 ; divs 0 4 ; imuls 0 1/2 ; neg 0 ; copyctor 0 ; copymeth 0 ; set 8 0 1 ; norm1 0 ; norm22 0 ; norminf 0 ; addl 0 %s ; eql 0 %s ; "
+                     "newfrom %d 3 ; crossbad 0 ; crossbad 2 ; assign 0 3 ; arriadd 2 1 ; setslicefrom 0 _ _ _ 3 ; str 0" % (n, ql(v), n, ql(w), ql(w), ql(v), n))
+    # boundary: the zero-size instance Dune::FieldVector<double,0>
+    cases.append("new 0 list - ; len 0 ; iter 0 ; str 0 ; repr 0 ; get 0 0 ; get 0 -1 ; set 0 0 1 ; set 0 -1 1 ; view 0 ; len 1 ; iter 1 ; slice 0 _ _ -1 ; add 0 0 ; dot 0 0 ; eq 0 0 ; "
+                 "norm22 0 ; norm1 0 ; norminf 0 ; neg 0 ; iadd 0 0 ; imuls 0 2 ; copyctor 0 ; copymeth 0 ; new 0 list 1,2 ; new 0 np 3 ; new 0 noarg - ; addl 0 1,2 ; eql 0 - ; eql 0 5 ; "
+                 "new 3 list 1,2,3 ; newfrom 0 11 ; newfrom 3 0 ; add 11 0 ; iadd 11 1 ; assign 11 0 ; setslice 0 _ _ _ - ; setslice 0 _ _ _ 1,2 ; bufinfo 0 ; addi 0 0 ; addi 0 1 ; muli 0 2")
     cases.append("npv ; bad2d")
     cases.append("tva ; f 17 ; v 2,2 ; f 3 ; v 1,2,3")
     # (5) random op sequences mixing views, copies and writes: a weighted walk over the shape of the registers
@@ -581,6 +659,16 @@ def gen(ctx, sizes):
                 c = rng.choice(["_", "_", "1", "-1", "2", "-2"])
                 ops.append("slice %d %s %s %s" % (any_r, a, b, c))
                 regs.append(("a", len(range(m)[slice(*[None if t == "_" else int(t) for t in (a, b, c)])])))
+            elif z < 0.295:
+                arrs = [i for i, (k, _) in enumerate(regs) if k == "a"]
+                if not arrs: continue
+                a = rng.choice(arrs); o = rng.choice(["arriadd", "arrisub", "arradd", "arrimuls", "setslicefrom"])
+                if o == "arrimuls": ops.append("arrimuls %d %s" % (a, fr(rng.choice(SCAL))))
+                elif o == "setslicefrom": ops.append("setslicefrom %d %s _ %s %d" % (any_r, rng.choice(["_", "0", "1", "-2"]), rng.choice(["_", "-1", "2"]), rng.randrange(len(regs))))
+                else:
+                    ops.append("%s %d %d" % (o, a, any_r))
+                    if o == "arradd" and (regs[any_r][1] in (1, regs[a][1]) or regs[a][1] == 1):
+                        regs.append(("a", regs[any_r][1] if regs[a][1] == 1 else regs[a][1]))
             elif z < 0.31:
                 m = rng.choice(sizes); ops.append("newfrom %d %d" % (m, any_r)); regs.append(("v", m))
             elif z < 0.34:
@@ -668,7 +756,7 @@ def run(ctx):
             raise
     env, runner, origin = setup_env(ctx)
     sizes = sizes_of(ctx)
-    prebuild(ctx, env, runner, sizes + ["npv", "dynj"] + (TV_CASES[:1] if ctx.quick else TV_CASES))
+    prebuild(ctx, env, runner, [0] + sizes + ["npv", "dynj"] + (["f32:3"] if ctx.quick else ["f32:1", "f32:2", "f32:3"]) + (TV_CASES[:1] if ctx.quick else TV_CASES))
     rc, info = V.sh(impl_cmd(runner) + ["--info"], env=env, timeout=120)
     origin["resolved"] = [l for l in info.split("\n") if " = " in l]
     cases = gen(ctx, sizes)
@@ -770,7 +858,7 @@ def replay(ctx, path):
     case = rep["case"]
     model = V.build_model(ctx)
     env, runner, origin = setup_env(ctx)
-    ns = [case] if is_tv(case) else ["npv"] if is_npv(case) else ["dynj"] if is_dyn(case) else sorted(set(int(t[1]) for t in split_case(case) if t[0] == "new"))
+    ns = ["f32:%s" % t[1] for t in split_case(case) if t[0] == "new"] if case.startswith("f32") else [case] if is_tv(case) else ["npv"] if is_npv(case) else ["dynj"] if is_dyn(case) else sorted(set(int(t[1]) for t in split_case(case) if t[0] == "new"))
     prebuild(ctx, env, runner, ns)
     mo = V.run_cases(ctx, [model], [case], tag="rmodel")
     io = V.run_cases(ctx, impl_cmd(runner), [case], tag="rimpl", timeout=120, env=env)
